@@ -187,7 +187,7 @@ Section Step.
     Hypothesis Wh : wf_hdr h.
     Hypothesis HU : U h.
     Hypothesis Hg0 : g0 <= h_num h.
-    Hypothesis Hfresh : forall a, Stored (idx s1) a -> h_num a = h_num h ->
+    Hypothesis Hfresh : fix_root = false -> forall a, Stored (idx s1) a -> h_num a = h_num h ->
                                   to_hash (h_root a) = to_hash (h_root h) -> key a = key h.
     Hypothesis Hnoalias : forall a, iget (key h) (idx s1) = Some a -> a = h.
     Hypothesis Hdead : forall d, In d D -> key h <> key d.
@@ -198,6 +198,7 @@ Section Step.
     Variable J t : nat.
     Variable new2 : header.
     Variable c' : cmap.
+    Variable rm' : rmap.
     Hypothesis A1 : nth_anc ix2 h J = Some new2.
     Hypothesis A2 : parent_of ix2 new2 = nth_error L t.
     Hypothesis A3 : h_num new2 + N.of_nat t = h_num old + 1.
@@ -209,7 +210,11 @@ Section Step.
     Hypothesis K3 : forall r k c, cget (r, k) c' = Some c ->
                       (r = r0 /\ exists a, In a Nn /\ k = h_num a) \/ cget (r, k) (cons s1) = Some c.
     Hypothesis K4 : NoDup (map fst c').
-    Let s' := {| head := h; chain_id := chain_id s1; trusting := trusting s1; idx := ix2; rmain := rm2; cons := c' |}.
+    (* the root-main index: as [update] left it (code as it is), or with the slots of the new chain re-pointed *)
+    Hypothesis KR0 : fix_root = false -> rm' = rm2.
+    Hypothesis KR1 : fix_root = true -> forall a, In a Nn -> rget (to_hash (h_root a), h_num a) rm' = Some (key a).
+    Hypothesis KR2 : fix_root = true -> forall k, (forall a, In a Nn -> snd k <> h_num a) -> rget k rm' = rget k (rmain s1).
+    Let s' := {| head := h; chain_id := chain_id s1; trusting := trusting s1; idx := ix2; rmain := rm'; cons := c' |}.
     Let L' := Nn ++ skipn t L.
 
     Lemma rebuild_inv : Inv s' L' D /\ low h L' = low old L.
@@ -282,12 +287,20 @@ Section Step.
         + pose proof (inv_closure _ _ _ _ _ _ _ I1 a Sa1 Ha) as C. fold ix1 in C.
           unfold parent_of in *. destruct (iget _ ix1) as [q|] eqn:Eq; [|congruence].
           unfold ix2. rewrite (store_mono ix1 h Hnoalias _ _ Eq). discriminate.
-      - (* inv_rmain *) intros a Sa Ha. rewrite LowEq in Ha. unfold rm2, rset, rget. rewrite rget_rset.
-        destruct (store_inv_stored _ _ _ Sa) as [->|Sa1].
-        + rewrite hkey_eqb_refl. reflexivity.
-        + destruct (hkey_eqb_spec (to_hash (h_root a), h_num a) (to_hash (h_root h), h_num h)) as [K|_].
-          * inversion K as [[Kr Kn]]. rewrite (Hfresh a Sa1 Kn Kr). reflexivity.
-          * exact (inv_rmain _ _ _ _ _ _ _ I1 a Sa1 Ha).
+      - (* inv_rmain *) intros a Sa Ha Ia. rewrite LowEq in Ha.
+        destruct (Bool.bool_dec fix_root true) as [FR|FR]; [|apply Bool.not_true_is_false in FR].
+        + (* repaired: only the slots of the main chain are claimed; the new part was re-pointed *)
+          specialize (Ia FR). unfold L' in Ia. apply in_app_or in Ia. destruct Ia as [Ia|Ia]; [exact (KR1 FR a Ia)|].
+          apply In_nth_error in Ia. destruct Ia as [u Eu]. destruct (Tail _ _ Eu) as [InL [Lt _]].
+          rewrite (KR2 FR); [|intros b Ib; cbn [snd]; destruct (NumN _ Ib) as [[Q _] _]; lia].
+          apply (inv_rmain _ _ _ _ _ _ _ I1 a); [|exact Ha | intros _; exact InL].
+          exact (main_stored _ _ _ _ _ WF1 Hold M1 (inv_head _ _ _ _ _ _ _ I1) _ InL).
+        + rewrite (KR0 FR). unfold rm2, rset, rget. rewrite rget_rset.
+          destruct (store_inv_stored _ _ _ Sa) as [->|Sa1].
+          * rewrite hkey_eqb_refl. reflexivity.
+          * destruct (hkey_eqb_spec (to_hash (h_root a), h_num a) (to_hash (h_root h), h_num h)) as [K|_].
+            -- inversion K as [[Kr Kn]]. rewrite (Hfresh FR a Sa1 Kn Kr). reflexivity.
+            -- apply (inv_rmain _ _ _ _ _ _ _ I1 a Sa1 Ha). intro F. rewrite FR in F. discriminate F.
       - (* inv_low *) intros a Sa. destruct (store_inv_stored _ _ _ Sa) as [->|Sa1]; [exact Hg0|].
         exact (inv_low _ _ _ _ _ _ _ I1 a Sa1).
       - (* inv_univ *) intros a Sa. destruct (store_inv_stored _ _ _ Sa) as [->|Sa1]; [exact HU|].
@@ -327,6 +340,48 @@ Section Step.
     - apply (mset_nodup ckey_eqb ckey_eqb_spec). apply fold_setc_nodup. exact ND1.
   Qed.
 
+  (** * The root-main index after [update] wrote the new header's slot and (variant [v_root]) the re-pointing *)
+  Lemma nodup_num_inj (Nn : list header) a b : NoDup (map h_num Nn) -> In a Nn -> In b Nn -> h_num a = h_num b -> a = b.
+  Proof.
+    induction Nn as [|x N IH]; [contradiction|]. cbn [map]. intros ND Ia Ib E. inversion ND as [|? ? NI ND']; subst.
+    destruct Ia as [->|Ia], Ib as [->|Ib]; try reflexivity.
+    - exfalso. apply NI. rewrite E. apply in_map. exact Ib.
+    - exfalso. apply NI. rewrite <- E. apply in_map. exact Ia.
+    - apply IH; assumption.
+  Qed.
+
+  Lemma fold_setr_base l : forall rm h, (forall a, In a l -> h_num a = h_num h -> a = h) ->
+    rget (to_hash (h_root h), h_num h) rm = Some (key h) ->
+    rget (to_hash (h_root h), h_num h) (fold_left (setr hash) l rm) = Some (key h).
+  Proof.
+    induction l as [|a l IH]; intros rm h Inj B; [exact B|].
+    cbn [fold_left]. apply IH; [intros b Ib; apply Inj; right; exact Ib|].
+    unfold setr, rset, rget. rewrite rget_rset.
+    destruct (hkey_eqb_spec (to_hash (h_root h), h_num h) (to_hash (h_root a), h_num a)) as [K|_]; [|exact B].
+    inversion K as [[Kr Kn]]. rewrite (Inj a (or_introl eq_refl) (eq_sym Kn)). reflexivity.
+  Qed.
+
+  Lemma rmain_conds (rm1 : rmap) (h : header) (Nn l : list header) (fr : bool) :
+    NoDup (map h_num Nn) -> NoDup (map h_num l) -> In h Nn ->
+    (forall a, In a l -> In a Nn) -> (forall a, In a Nn -> a = h \/ In a l) ->
+    let rm2 := rset (to_hash (h_root h), h_num h) (key h) rm1 in
+    let rm' := rfold hash fr l rm2 in
+    (fr = false -> rm' = rm2) /\
+    (fr = true -> forall a, In a Nn -> rget (to_hash (h_root a), h_num a) rm' = Some (key a)) /\
+    (fr = true -> forall k, (forall a, In a Nn -> snd k <> h_num a) -> rget k rm' = rget k rm1).
+  Proof.
+    intros NDN NDl Ih Sub Sup rm2 rm'. unfold rm', rfold. split; [intros ->; reflexivity|]. split; intros ->.
+    - intros a Ia. destruct (Sup a Ia) as [->|Il]; [|apply fold_setr_in; assumption].
+      apply fold_setr_base.
+      + intros b Ib E. exact (nodup_num_inj Nn b h NDN (Sub b Ib) Ih E).
+      + unfold rm2, rset, rget. rewrite rget_rset, hkey_eqb_refl. reflexivity.
+    - intros k N. rewrite fold_setr_other.
+      + unfold rm2, rset, rget. rewrite rget_rset.
+        destruct (hkey_eqb_spec k (to_hash (h_root h), h_num h)) as [K|_]; [|reflexivity].
+        exfalso. apply (N h Ih). rewrite K. reflexivity.
+      + intros a Ia E. apply (N a (Sub a Ia)). rewrite <- E. reflexivity.
+  Qed.
+
   (** * A successful run of the (repaired) RestrictChain *)
   Section Restrict.
     Variable s1 : state.
@@ -334,22 +389,27 @@ Section Step.
     Variable h : header.
     Hypothesis I1 : Inv s1 L D.
     Hypothesis Wh : wf_hdr h.
-    Hypothesis Hfresh : forall a, Stored (idx s1) a -> h_num a = h_num h ->
+    Hypothesis Hfresh : fix_root = false -> forall a, Stored (idx s1) a -> h_num a = h_num h ->
                                   to_hash (h_root a) = to_hash (h_root h) -> key a = key h.
     Hypothesis Hnoalias : forall a, iget (key h) (idx s1) = Some a -> a = h.
+    (* needed by the repaired variant only (it walks down from the head in the index that already holds [h]) *)
+    Hypothesis Hg0 : fix_root = true -> g0 <= h_num h.
+    Hypothesis Hdead : fix_root = true -> forall d, In d D -> key h <> key d.
     Let old := head s1.
     Let ix1 := idx s1.
     Let ix2 := iset (key h) h ix1.
     Let s2 := store_header hash s1 h.
 
-    (** the main-chain header the [si > ti] branch starts from *)
+    (** the main-chain header the [si > ti] branch starts from -- code as it is: through the consensus state
+        and the root-main slot *)
     Lemma restrict_current y i0 :
+      fix_root = false ->
       h_num h < h_num old -> nth_error L i0 = Some y -> h_num y = h_num h ->
       cget (h_rev h, h_num h) (cons s2) = Some (cstate_of y) /\
       rget (to_hash (h_root y), h_num h) (rmain s2) = Some (key y) /\
       iget (key y) (idx s2) = Some y.
     Proof.
-      intros Lt Ey Ny. destruct Wh as [Hrev [Hh Hgl]].
+      intros FR Lt Ey Ny. destruct Wh as [Hrev [Hh Hgl]].
       pose proof (inv_wf _ _ _ _ _ _ _ I1) as WF1. pose proof (inv_main _ _ _ _ _ _ _ I1) as M1.
       destruct (inv_head_wf _ _ _ _ _ _ _ I1) as [_ [Hold _]].
       assert (Iy : In y L) by (eapply nth_error_In; exact Ey).
@@ -362,46 +422,98 @@ Section Step.
         split.
         + unfold rset, rget. rewrite rget_rset.
           destruct (hkey_eqb_spec (to_hash (h_root y), h_num h) (to_hash (h_root h), h_num h)) as [K|_].
-          * inversion K as [Kr]. rewrite (Hfresh y Sy Ny Kr). reflexivity.
-          * rewrite <- Ny. exact (inv_rmain _ _ _ _ _ _ _ I1 y Sy Ly).
+          * inversion K as [Kr]. rewrite (Hfresh FR y Sy Ny Kr). reflexivity.
+          * rewrite <- Ny. exact (inv_rmain _ _ _ _ _ _ _ I1 y Sy Ly (fun _ => Iy)).
         + rewrite iget_store. destruct (hkey_eqb_spec (key y) (key h)) as [K|_]; [rewrite (Ky K); reflexivity | exact Sy].
     Qed.
 
-    Lemma restrict_ok_shape c3 :
-      restrict_chain hash s2 old h = Ok c3 ->
+    (** storing the new header does not change the head's stored ancestry: the only key it adds is its own,
+        and that is neither a pruned header's nor below the creation height *)
+    Lemma store_main_same : g0 <= h_num h -> (forall d, In d D -> key h <> key d) ->
+      forall j, nth_anc ix2 old j = nth_anc ix1 old j.
+    Proof.
+      clear Hg0 Hdead Hfresh. intros Hg0' Hdead' j.
+      pose proof (inv_wf _ _ _ _ _ _ _ I1) as WF1. pose proof (inv_main _ _ _ _ _ _ _ I1) as M1. fold ix1 old in M1.
+      destruct (inv_head_wf _ _ _ _ _ _ _ I1) as [_ [Hold _]]. fold old in Hold.
+      destruct Wh as [Hrev [Hh Hgl]].
+      destruct (nth_anc ix1 old j) as [a|] eqn:E1.
+      - apply (nth_anc_mono ix2 ix1 old j a); [|exact E1].
+        intros k v Ek. exact (store_mono ix1 h Hnoalias k v Ek).
+      - (* beyond the lowest stored main-chain header: its parent key is dead, the new key is not *)
+        destruct (main_last _ _ _ M1) as [EL PL].
+        destruct (main_cons _ _ _ M1) as [l EqL].
+        assert (Hj : (length L <= j)%nat).
+        { rewrite M1 in E1. apply nth_error_None in E1. exact E1. }
+        assert (PL2 : parent_of ix2 (last L old) = None).
+        { unfold parent_of, ix2. rewrite iget_store.
+          change (to_hash (h_parent (last L old)), sub64 (h_num (last L old)) 1) with (pkey (last L old)).
+          destruct (hkey_eqb_spec (pkey (last L old)) (key h)) as [K|_]; [|exact PL].
+          exfalso. pose proof (inv_dead _ _ _ _ _ _ _ I1) as DP. fold old in DP. destruct D as [|d D'].
+          - cbn [DeadPath] in DP. rewrite K in DP. cbn [snd EthChain.key] in DP. lia.
+          - cbn [DeadPath] in DP. destruct DP as [Kd _]. apply (Hdead' d (or_introl eq_refl)). congruence. }
+        assert (EL2 : nth_anc ix2 old (length L - 1) = Some (last L old)).
+        { apply (nth_anc_mono ix2 ix1 old _ _); [|exact EL]. intros k v Ek. exact (store_mono ix1 h Hnoalias k v Ek). }
+        replace j with ((length L - 1) + S (j - length L))%nat by (rewrite EqL in *; cbn [length] in *; lia).
+        rewrite nth_anc_add, EL2. cbn [EthChain.nth_anc]. rewrite PL2. reflexivity.
+    Qed.
+
+    Lemma restrict_ok_shape c3 rm3 :
+      restrict_chain hash s2 old h = Ok (c3, rm3) ->
       exists J m new2 y,
         nth_anc ix2 h J = Some new2 /\ nth_error L m = Some y /\ h_num new2 = h_num y /\
-        h_parent y = h_parent new2 /\ c3 = fold_left (setc r0) (rev (ancs ix2 h J)) (cons s1).
+        h_parent y = h_parent new2 /\ c3 = fold_left (setc r0) (rev (ancs ix2 h J)) (cons s1) /\
+        rm3 = rfold hash fix_root (rev (ancs ix2 h J)) (rmain s2).
     Proof.
-      intro R. destruct Wh as [Hrev [Hh Hgl]].
+      intro R. pose proof Wh as [Hrev [Hh Hgl]].
       pose proof (inv_wf _ _ _ _ _ _ _ I1) as WF1. fold ix1 in WF1.
       assert (WF2 : idx_wf ix2) by (apply store_wf; [exact WF1 | exact Wh]).
       pose proof (inv_main _ _ _ _ _ _ _ I1) as M1. fold ix1 old in M1.
       destruct (inv_head_wf _ _ _ _ _ _ _ I1) as [_ [Hold _]]. fold old in Hold.
       assert (S2h : Stored ix2 h) by apply store_stored_h.
       assert (H64 : h_num h < two64) by (pose proof two63_lt_two64; lia).
+      assert (O64 : h_num old < two64) by (pose proof two63_lt_two64; lia).
       unfold restrict_chain, restrict_chain_gen in R.
       (* finishing argument shared by both branches *)
       assert (Fin : forall J new2 ti2 acc2,
                  nth_anc ix2 h J = Some new2 -> ti2 = h_num new2 -> acc2 = push hash ix2 h J [] ->
-                 repoint ix2 (h_rev h) ti2 (hash new2 :: acc2) (cons s1) = Ok c3 ->
-                 c3 = fold_left (setc r0) (rev (ancs ix2 h J)) (cons s1)).
+                 repoint fix_root ix2 (h_rev h) ti2 (hash new2 :: acc2) (cons s1) (rmain s2) = Ok (c3, rm3) ->
+                 c3 = fold_left (setc r0) (rev (ancs ix2 h J)) (cons s1) /\
+                 rm3 = rfold hash fix_root (rev (ancs ix2 h J)) (rmain s2)).
       { intros J new2 ti2 acc2 A -> -> Rp. rewrite (push_ancs hash ix2 h J [] new2 A), app_nil_r in Rp.
-        rewrite Hrev in Rp. rewrite repoint_spec in Rp.
-        - inversion Rp; reflexivity.
+        rewrite Hrev in Rp. rewrite (repoint_spec hash) in Rp.
+        - inversion Rp; split; reflexivity.
         - intros a Ia. apply in_rev in Ia. destruct (ancs_in _ _ _ _ Ia) as [i [_ Ei]].
           split; [exact (nth_anc_stored _ _ _ _ _ _ WF2 Hh S2h Ei) | exact (proj2 (nth_anc_num _ _ _ _ _ _ WF2 Hh Ei))].
         - apply (ancs_asc ix2 J h new2 WF2 Hh A). }
       destruct (N.ltb_spec (h_num h) (h_num old)) as [Lt|Ge].
-      - (* the head is higher: start from the main-chain header at the new header's height *)
-        destruct (cget (h_rev h, h_num h) (cons s2)) as [c|] eqn:E1; [|discriminate].
-        assert (LowH : low old L <= h_num h).
-        { cbn [s2 store_header cons] in E1. rewrite Hrev in E1. exact (proj2 (inv_cdom _ _ _ _ _ _ _ I1 _ _ _ E1)). }
-        destruct (main_at _ _ _ _ _ WF1 Hold M1 (h_num h)) as [y [Ey Ny]]; [lia|].
+      - (* the head is higher: start from the main-chain header [y] at the new header's height *)
         set (i0 := N.to_nat (h_num old - h_num h)) in *.
-        destruct (restrict_current y i0 Lt Ey Ny) as [C1 [C2 C3]].
-        rewrite C1 in E1. inversion E1; subst c. cbn [c_root cstate_of] in R.
-        rewrite C2, C3 in R. cbn [obind fst snd] in R.
+        assert (Start : forall r,
+                  (if fix_root then cur <- walk0 (S (length (idx s2))) (idx s2) old (h_num old) (h_num h) ;; Ok (cur, h_num h)
+                   else match cget (h_rev h, h_num h) (cons s2) with
+                        | None => Err
+                        | Some c => match rget (to_hash (c_root c), h_num h) (rmain s2) with
+                                    | None => Err
+                                    | Some ik => match iget ik (idx s2) with None => Err | Some cur => Ok (cur, h_num h) end
+                                    end
+                        end) = Ok r ->
+                  exists y, nth_error L i0 = Some y /\ h_num y = h_num h /\ r = (y, h_num h)).
+        { intros r St. destruct (Bool.bool_dec fix_root true) as [FR|FR]; [|apply Bool.not_true_is_false in FR]; rewrite FR in St.
+          - destruct (walk0 (S (length (idx s2))) (idx s2) old (h_num old) (h_num h)) as [cur| |] eqn:W0; try discriminate St.
+            cbn [obind] in St. inversion St; subst r.
+            pose proof (walk0_sound (idx s2) _ _ _ _ _ O64 W0) as A0. fold i0 in A0.
+            change (idx s2) with ix2 in A0. rewrite (store_main_same (Hg0 FR) (Hdead FR)), M1 in A0.
+            exists cur. split; [exact A0|]. split; [|reflexivity].
+            destruct (main_num _ _ _ _ _ WF1 Hold M1 _ _ A0) as [Q _]. unfold i0 in Q. lia.
+          - destruct (cget (h_rev h, h_num h) (cons s2)) as [c|] eqn:E1; [|discriminate St].
+            assert (LowH : low old L <= h_num h).
+            { cbn [s2 store_header cons] in E1. rewrite Hrev in E1. exact (proj2 (inv_cdom _ _ _ _ _ _ _ I1 _ _ _ E1)). }
+            destruct (main_at _ _ _ _ _ WF1 Hold M1 (h_num h)) as [y [Ey Ny]]; [lia|]. fold i0 in Ey.
+            destruct (restrict_current y i0 FR Lt Ey Ny) as [C1 [C2 C3]].
+            exists y. split; [exact Ey|]. split; [exact Ny|].
+            rewrite C1 in E1. inversion E1; subst c. cbn [c_root cstate_of] in St. rewrite C2, C3 in St. inversion St; reflexivity. }
+        match type of R with (obind ?st _ = _) => destruct st as [r| |] eqn:St; try discriminate R end.
+        destruct (Start r eq_refl) as [y [Ey [Ny ->]]]. clear Start St. cbn [obind fst snd] in R.
         cbn [walk1] in R. rewrite N.ltb_irrefl in R. cbn [obind] in R.
         destruct (walk2 hash (S (length (idx s2))) (idx s2) y h (h_num h) []) as [[[new2 ti2] acc2]| |] eqn:W2; try discriminate.
         cbn [obind] in R.
